@@ -94,12 +94,29 @@ func inlineSmall(names ...string) func(*ssa.Function, int) bool {
 	}
 }
 
-var mergeInline = inlineSmall(
-	"syncer.(*NativeIterator).addHeader",
-	"snapshot.(*KV).MaskedFlags",
-	"lmdbenv/header.(Flags).Masked",
-	"lmdbenv/header.(Flags).IsDeleted",
-)
+// mergeInline: inline every small loop-free repository helper (so that the
+// table does not depend on how the routine is split into helper functions),
+// except the header codec, which is an effect/opaque pure function here.
+func mergeInline(f *ssa.Function, depth int) bool {
+	if depth > 4 || f.Blocks == nil || len(f.Blocks) > 60 {
+		return false
+	}
+	if !strings.HasPrefix(fnPkgPath(f), modPath) {
+		return false
+	}
+	switch QualName(f) {
+	case "lmdbenv/header.PutBasic", "lmdbenv/header.Parse", "lmdbenv/header.Skip", "syncer.(*NativeIterator).logDebugValue":
+		return false
+	}
+	for _, b := range f.Blocks {
+		for _, s := range b.Succs {
+			if s.Dominates(b) {
+				return false // loops are not inlined
+			}
+		}
+	}
+	return true
+}
 
 func BuildMergeTable(c *Check, fname string) *MergeTable {
 	fn := c.P.Func(fname)
